@@ -149,6 +149,11 @@ func c02AddInput(p *codegen.Pipeline, format, path, pkg string) error {
 // c02SrcCase runs ONE pipeline over the given inputs (one package each) and prepares the case for
 // c02BuildGoModule / c02ReportModule.
 func c02SrcCase(id string, inputs []c02Input, combo c02Combo, work string, degrade int, extraTrig ...string) (*c02IRCase, error) {
+	return c02SrcCaseV(id, inputs, combo, work, degrade, "", extraTrig)
+}
+
+// c02SrcCaseV: as c02SrcCase, with one builder veneer file (every %PKG% replaced by the first package name).
+func c02SrcCaseV(id string, inputs []c02Input, combo c02Combo, work string, degrade int, veneersYAML string, extraTrig []string) (*c02IRCase, error) {
 	c := &c02IRCase{c02LangCase: c02LangCase{ID: id, Format: "src", Combo: combo, Group: c02GroupKey(combo)}, Frags: map[string]*c02Fragment{}}
 	fmts, srcs := []string{}, []string{}
 	trig := map[string]bool{}
@@ -184,6 +189,17 @@ func c02SrcCase(id string, inputs []c02Input, combo c02Combo, work string, degra
 	c.Shape = c02CaseTextMulti(ts, combo.String(), c.Format, srcs)
 	opts := c02Opts{Types: true, Builders: combo.Builders, Converters: combo.Converters, APIRef: combo.APIRef, Go: combo.Go,
 		EnumsAsUnion: combo.EnumsAsUnion, LangMarshal: combo.LangMarshal, LangSkipRuntime: combo.LangSkipRT}
+	if veneersYAML != "" {
+		opts.VeneersDir = filepath.Join(work, "veneers", id)
+		if err := os.MkdirAll(opts.VeneersDir, 0o755); err != nil {
+			return nil, err
+		}
+		text := strings.ReplaceAll(veneersYAML, "%PKG%", inputs[0].Pkg)
+		if err := os.WriteFile(filepath.Join(opts.VeneersDir, "v.yaml"), []byte(text), 0o644); err != nil {
+			return nil, err
+		}
+		c.Shape += " veneers=" + labOneLine(strings.ReplaceAll(text, "\n", " | "))
+	}
 	build := func() (*codegen.Pipeline, error) {
 		p, err := c02Pipeline(rs[0].format, rs[0].path, rs[0].pkg, nil, opts, work)
 		if err != nil {
